@@ -157,3 +157,32 @@ func init() {
 		},
 	})
 }
+
+func init() {
+	register(&PropDef{
+		ID:    "C01",
+		Level: "model_checking",
+		Rule: "families F-seq (no checks, <=1 failing action at every position, c x t grid), F-chk (every subset of the five check groups at plan or block level, 0/1 failing group) and sharp scenarios; " +
+			"every order of visible operations within the deviation bound; each plugin invocation is checked against the events preceding it; " +
+			"distinct_nontrivial = distinct states in which two or more logical threads were enabled",
+		Assumptions: []string{"a free worker-pool runner always exists (64 runners)", "engine internals between two visible operations are atomic (I/O granularity)", "continuous checks are background by definition and excluded from 'last'"},
+		NewMon:      func(sc *Scenario) Monitor { return monC01{} },
+		Items: func(tier string) []WorkItem {
+			var items []WorkItem
+			b := 1
+			if tier == "thorough" {
+				b = 3
+			}
+			for _, sc := range FamilySeq(tier) {
+				items = append(items, explore("C01", sc, b, true))
+			}
+			for _, sc := range FamilyChk(tier) {
+				items = append(items, explore("C01", sc, b, true))
+			}
+			for _, sc := range FamilySharp(tier) {
+				items = append(items, explore("C01", sc, b+1, true))
+			}
+			return items
+		},
+	})
+}
